@@ -41,6 +41,10 @@ def leaflib() -> Dict[str, Any]:
 def leaf_call(leafname: str, tag: Optional[int]):
     lib = leaflib()
     tag = int(tag or 0)
+    if leafname not in lib and leafname in refsem.LEAVES and refsem.LEAVES[leafname]["kind"] == "ext":
+        d = refsem.LEAVES[leafname]
+        lib[leafname] = h.ExternalModule(name=leafname, domain="hvlib",
+                                         port_list=[h.Port(name=p, width=w) for p, w in d["ports"]], paramtype=TagParams)
     if leafname == "R":
         return lib["R"](r=1000 + tag)
     if leafname == "C":
